@@ -54,8 +54,10 @@ Record cfg := {
   c_ordered : bool;   (* true: checkpoint writes and deletes of one session take effect in issue order
                          (/repo HEAD since 657fd59); false: an asynchronous Put applies whenever it completes (before the fix) *)
   c_reserve : bool;   (* true: PPPoE installInMemoryState re-reserves addresses (HEAD since 7da5674); IPoE always does *)
-  c_delretry : bool;  (* true: a checkpoint Delete that fails with a Store error is repeated until it succeeds
-                         (/repo HEAD since f3eb7c5, OrderedWriter.DeleteEventually); false: the error is only logged (before) *)
+  c_delretry : bool;  (* true: a checkpoint Delete that fails with a Store error is repeated in the background
+                         (/repo HEAD since f3eb7c5, OrderedWriter.DeleteEventually); false: only logged (before) *)
+  c_delforever : bool; (* true: the background repetition never gives up (proposed repair); false: it stops after
+                          deleteRetryAttempts failed attempts (/repo HEAD) *)
   c_n4 : N; c_n6 : N; c_npd : N }.
 
 Definition code (f a : N) : N := 3 * a + f.
@@ -117,12 +119,14 @@ Record st := {
   released : list N;                (* ghost: sessions released so far *)
   used : list N;                    (* ghost: session identities ever created (identities are never reused) *)
   poison : list (N * bool);         (* fault plan: ticket -> its Put returns a transient Store error (true: always) *)
-  completed : list (N * N) }.       (* history record: (session, stamp) of every checkpoint image that took effect in
+  completed : list (N * N);
+  delpend : list (N * bool) }.      (* sessions released in memory whose checkpoint Delete failed and has not taken effect
+                                       yet: session -> the background repetition has given up *)       (* history record: (session, stamp) of every checkpoint image that took effect in
                                        the store (synchronous checkpoint, or completed effective asynchronous Put) *)
 
 Definition init : st :=
   {| store := []; pend := []; tick := 0; applied := []; live := []; leases := []; dp := [];
-     dpnext := swif_base; released := []; used := []; poison := []; completed := [] |}.
+     dpnext := swif_base; released := []; used := []; poison := []; completed := []; delpend := [] |}.
 
 (* ---- allocator ---- *)
 (* Registry.Reserve*: only a pool that contains the address records it; a lease held by another owner is a
@@ -199,7 +203,9 @@ Inductive op :=
                                                  simply stays pending) *)
 | Poison (t : N) (always : bool)              (* fault plan: the Put with ticket t will return a Store error *)
 | CksF (i : N)                                (* checkpointSessionSync whose Store.Put returns an error *)
-| RelF (i : N)                                (* release whose checkpoint Delete returns a (transient) Store error *)
+| RelF (i : N)                                (* release whose checkpoint Delete returns a Store error *)
+| DelRetry (i : N) (ok : bool)                (* a background repetition of that Delete succeeds / fails again *)
+| GiveUp (i : N)                              (* the repetition stops after its last failed attempt *)
 | Flip                                        (* Registry.SetAllocDirection flips (HA: this node lost the SRG election):
                                                  every pool rebuilds its free list; leases and reservations stay *)
 | Crash (preserved : bool) (fail : option N) (now : Z)    (* stop; new incarnation restores from the store *)
@@ -211,11 +217,11 @@ Inductive op :=
 
 Inductive out :=
 | ONew (a4 a6 apd : option N) (x4 x6 xpd : bool)   (* x* : that pool was asked and is exhausted *)
-| OSkip | OCk (t : N) (lg : list tok) | OCks (t : N) (lg : list tok) | ORel (lg : list tok) | ODone (retry : bool)
+| OSkip | OCk (t : N) (lg : list tok) | OCks (t : N) (lg : list tok) | ORel (lg : list tok) | ODone (retry : bool) | ONote (n : N) (lg : list tok)
 | OCrash (lg : list tok).
 
 Definition upd_store s v := {| store := v; pend := pend s; tick := tick s; applied := applied s; live := live s;
-  leases := leases s; dp := dp s; dpnext := dpnext s; released := released s; used := used s; poison := poison s; completed := completed s |}.
+  leases := leases s; dp := dp s; dpnext := dpnext s; released := released s; used := used s; poison := poison s; completed := completed s; delpend := delpend s |}.
 
 Definition is_some {A} (o : option A) : bool := match o with Some _ => true | None => false end.
 Definition is_alloc (a : aspec) : bool := match a with AAlloc => true | _ => false end.
@@ -243,7 +249,7 @@ Definition do_new (c : cfg) (s : st) (n : newspec) (o4 o6 opd : option N) : opti
           else (r0, dp s, dpnext s) in
         Some ({| store := store s; pend := pend s; tick := tick s; applied := applied s;
                  live := aput (n_id n) r (live s); leases := l3; dp := d; dpnext := nx;
-                 released := released s; used := n_id n :: used s; poison := poison s; completed := completed s |},
+                 released := released s; used := n_id n :: used s; poison := poison s; completed := completed s; delpend := delpend s |},
               ONew a4 a6 apd (is_alloc (n_a4 n) && negb (is_some a4)) (is_alloc (n_a6 n) && negb (is_some a6))
                    (is_alloc (n_apd n) && negb (is_some apd)))
       end
@@ -258,7 +264,7 @@ Definition do_ck (s : st) (i : N) : st * out :=
     let r' := set_stamp r t in
     ({| store := store s; pend := pend s ++ [(t, r')]; tick := t + 1; applied := applied s;
         live := aput i r' (live s); leases := leases s; dp := dp s; dpnext := dpnext s;
-        released := released s; used := used s; poison := poison s; completed := completed s |}, OCk t [])
+        released := released s; used := used s; poison := poison s; completed := completed s; delpend := delpend s |}, OCk t [])
   end.
 
 Definition do_cks (s : st) (i : N) : st * out :=
@@ -269,7 +275,7 @@ Definition do_cks (s : st) (i : N) : st * out :=
     let r' := set_stamp r t in
     ({| store := aput i r' (store s); pend := pend s; tick := t + 1; applied := aput i t (applied s);
         live := aput i r' (live s); leases := leases s; dp := dp s; dpnext := dpnext s;
-        released := released s; used := used s; poison := poison s; completed := (i, t) :: completed s |},
+        released := released s; used := used s; poison := poison s; completed := (i, t) :: completed s; delpend := delpend s |},
      OCks t [TSP i])
   end.
 
@@ -282,7 +288,7 @@ Definition do_rel (s : st) (i : N) : st * out :=
     ({| store := aremove i (store s); pend := pend s; tick := t + 1; applied := aput i t (applied s);
         live := aremove i (live s); leases := release_all (leases s) (addrs r);
         dp := if hasdp then aremove i (dp s) else dp s; dpnext := dpnext s;
-        released := i :: released s; used := used s; poison := poison s; completed := completed s |},
+        released := i :: released s; used := used s; poison := poison s; completed := completed s; delpend := delpend s |},
      ORel ((if hasdp then [TDEL i] else []) ++ [TSD i; TL i]))
   end.
 
@@ -292,7 +298,7 @@ Definition effective (c : cfg) (s : st) (i t : N) : bool :=
 
 Definition set_pend_poison (s : st) (pd : list (N * sess)) (po : list (N * bool)) : st :=
   {| store := store s; pend := pd; tick := tick s; applied := applied s; live := live s; leases := leases s;
-     dp := dp s; dpnext := dpnext s; released := released s; used := used s; poison := po; completed := completed s |}.
+     dp := dp s; dpnext := dpnext s; released := released s; used := used s; poison := po; completed := completed s; delpend := delpend s |}.
 
 Definition do_done_core (c : cfg) (s : st) (t : N) (retried : bool) : st * out :=
   match aget t (pend s) with
@@ -309,12 +315,13 @@ Definition do_done_core (c : cfg) (s : st) (t : N) (retried : bool) : st * out :
         ({| store := aput i r (store s); pend := aremove t (pend s); tick := tick s;
             applied := aput i t (applied s); live := live s; leases := leases s; dp := dp s;
             dpnext := dpnext s; released := released s; used := used s; poison := poison s;
-            completed := match s_stamp r with Some ts => (i, ts) :: completed s | None => completed s end |},
+            completed := match s_stamp r with Some ts => (i, ts) :: completed s | None => completed s end;
+            delpend := delpend s |},
          ODone false)
       else
         ({| store := store s; pend := aremove t (pend s); tick := tick s; applied := applied s;
             live := live s; leases := leases s; dp := dp s; dpnext := dpnext s; released := released s;
-            used := used s; poison := poison s; completed := completed s |}, ODone false)
+            used := used s; poison := poison s; completed := completed s; delpend := delpend s |}, ODone false)
     end
   end.
 
@@ -350,7 +357,7 @@ Definition do_cksf (c : cfg) (s : st) (i : N) : st * out :=
     let r' := set_stamp r t in
     ({| store := store s1; pend := pend s1; tick := t + 1; applied := applied s1;
         live := aput i r' (live s1); leases := leases s1; dp := dp s1; dpnext := dpnext s1;
-        released := released s1; used := used s1; poison := poison s1; completed := completed s1 |}, OCks t [TSPF i; TCKSERR])
+        released := released s1; used := used s1; poison := poison s1; completed := completed s1; delpend := delpend s1 |}, OCks t [TSPF i; TCKSERR])
   end.
 
 (* the lowest pending ticket of session i that can still take effect: under an ordering writer that is the write
@@ -362,8 +369,12 @@ Fixpoint first_of (c : cfg) (s : st) (i : N) (pd : list (N * sess)) : option N :
   end.
 
 (* release whose Delete fails.  The Delete has waited for the write that was at the Store (it takes effect), the
-   queued Puts issued before it are skipped as obsolete, then the Store returns an error.  Before f3eb7c5 the error was only
-   logged: the image stays and the session is nevertheless released.  HEAD: the Delete is repeated and succeeds. *)
+   queued Puts issued before it are skipped as obsolete, then the Store returns an error.  deleteSessionCheckpoint
+   returns, the release COMPLETES in memory (addresses freed, dataplane session deleted, released event published),
+   but the image is still in the store: the session is in [delpend], not in [released].
+   OrderedWriter.DeleteEventually repeats the Delete on a background goroutine ([DelRetry], after 50 ms, 100 ms, ...)
+   and, on /repo HEAD, gives up after deleteRetryAttempts failures ([GiveUp]).  Before f3eb7c5 nothing was repeated
+   (given up at once). *)
 Definition do_relf (c : cfg) (s : st) (i : N) : st * out :=
   match aget i (live s) with
   | None => (s, OSkip)
@@ -373,12 +384,40 @@ Definition do_relf (c : cfg) (s : st) (i : N) : st * out :=
               else s in
     let t := tick s1 in
     let hasdp := negb (s_swif r =? 0) in
-    ({| store := if c_delretry c then aremove i (store s1) else store s1;
+    ({| store := store s1;
         pend := pend s1; tick := t + 1; applied := aput i t (applied s1);
         live := aremove i (live s1); leases := release_all (leases s1) (addrs r);
         dp := if hasdp then aremove i (dp s1) else dp s1; dpnext := dpnext s1;
-        released := i :: released s1; used := used s1; poison := poison s1; completed := completed s1 |},
-     ORel ((if hasdp then [TDEL i] else []) ++ [TSDF i; TL i] ++ (if c_delretry c then [TSD i] else [])))
+        released := released s1; used := used s1; poison := poison s1; completed := completed s1;
+        delpend := aput i (negb (c_delretry c)) (delpend s1) |},
+     ORel ((if hasdp then [TDEL i] else []) ++ [TSDF i; TL i]))
+  end.
+
+Definition set_delpend (s : st) (d : list (N * bool)) : st :=
+  {| store := store s; pend := pend s; tick := tick s; applied := applied s; live := live s; leases := leases s;
+     dp := dp s; dpnext := dpnext s; released := released s; used := used s; poison := poison s;
+     completed := completed s; delpend := d |}.
+
+(* one background repetition of a failed checkpoint Delete: it succeeds (the image is gone, the release is durable:
+   the session is now [released]) or fails again.  ONote 0: nothing pending, 1: failed again, 2: succeeded *)
+Definition do_delretry (s : st) (i : N) (ok : bool) : st * out :=
+  match aget i (delpend s) with
+  | Some false =>
+    if ok then
+      ({| store := aremove i (store s); pend := pend s; tick := tick s + 1; applied := aput i (tick s) (applied s);
+          live := live s; leases := leases s; dp := dp s; dpnext := dpnext s; released := i :: released s;
+          used := used s; poison := poison s; completed := completed s; delpend := aremove i (delpend s) |},
+       ONote 2 [TSD i])
+    else (s, ONote 1 [])
+  | _ => (s, ONote 0 [])
+  end.
+
+(* the repetition ends without success.  ONote 0: nothing pending, 1: gave up (the image stays for good), 2: keeps
+   retrying (c_delforever) *)
+Definition do_giveup (c : cfg) (s : st) (i : N) : st * out :=
+  match aget i (delpend s) with
+  | Some false => if c_delforever c then (s, ONote 2 []) else (set_delpend s (aput i true (delpend s)), ONote 1 [])
+  | _ => (s, ONote 0 [])
   end.
 
 (* ---- restore ---- *)
@@ -415,7 +454,7 @@ Definition install (c : cfg) (s : st) (k : N) (r : sess) : st :=
   let res := match c_proto c with IPoE => true | PPPoE => c_reserve c end in
   {| store := store s; pend := pend s; tick := tick s; applied := applied s; live := aput k r (live s);
      leases := if res then reserve_all c k (leases s) (addrs r) else leases s;
-     dp := dp s; dpnext := dpnext s; released := released s; used := used s; poison := poison s; completed := completed s |}.
+     dp := dp s; dpnext := dpnext s; released := released s; used := used s; poison := poison s; completed := completed s; delpend := delpend s |}.
 
 Definition restore_one (c : cfg) (now : Z) (fail : option N) (cause : N) (store0 : list (N * sess))
            (acc : st * list tok) (k : N) : st * list tok :=
@@ -439,7 +478,7 @@ Definition restore_one (c : cfg) (now : Z) (fail : option N) (cause : N) (store0
             let t := tick s1 in
             ({| store := store s1; pend := pend s1 ++ [(t, r')]; tick := t + 1; applied := applied s1;
                 live := aput k r' (live s1); leases := leases s1; dp := dp_prog k r d1; dpnext := nx1;
-                released := released s1; used := used s1; poison := poison s1; completed := completed s1 |},
+                released := released s1; used := used s1; poison := poison s1; completed := completed s1; delpend := delpend s1 |},
              lg ++ prog_log c k sw r ++ [TR k cause])
         else (s1, lg)
   end.
@@ -449,14 +488,14 @@ Definition do_crash (c : cfg) (s : st) (preserved : bool) (fail : option N) (now
   let nx := if preserved then dpnext s else swif_base in
   let cause := match d with [] => 1 | _ => 0 end in      (* 0 osvbngd_restart, 1 vpp_recovery *)
   let s0 := {| store := store s; pend := []; tick := tick s; applied := applied s; live := [];
-               leases := []; dp := d; dpnext := nx; released := released s; used := used s; poison := []; completed := completed s |} in
+               leases := []; dp := d; dpnext := nx; released := released s; used := used s; poison := []; completed := completed s; delpend := [] |} in
   let '(s1, lg) := fold_left (restore_one c now fail cause (store s)) (isort (map fst (store s))) (s0, []) in
   (s1, OCrash lg).
 
 Definition set_dp (s : st) (d : list (N * dpe)) : st :=
   {| store := store s; pend := pend s; tick := tick s; applied := applied s; live := live s; leases := leases s;
      dp := d; dpnext := dpnext s; released := released s; used := used s; poison := poison s;
-     completed := completed s |}.
+     completed := completed s; delpend := delpend s |}.
 
 Definition do_relstop (c : cfg) (s : st) (i : N) (putdone preserved : bool) (fail : option N) (now : Z) : st * out :=
   let s1 := if putdone && c_ordered c then
@@ -479,6 +518,8 @@ Definition step (c : cfg) (s : st) (o : op) : option (st * out) :=
   | Poison t al => Some (do_poison s t al)
   | CksF i => Some (do_cksf c s i)
   | RelF i => Some (do_relf c s i)
+  | DelRetry i ok => Some (do_delretry s i ok)
+  | GiveUp i => Some (do_giveup c s i)
   | Flip => Some (s, ODone false)
   | Crash p f now => Some (do_crash c s p f now)
   | RelStop i pd p f now => Some (do_relstop c s i pd p f now)
@@ -496,7 +537,7 @@ Definition free_of (c : cfg) (s : st) (f : N) : list N :=
   filter (fun a => negb (amem (code f a) (leases s))) (nrange (fam_size c f)).
 
 Definition repaired (p : proto) (n4 n6 npd : N) : cfg :=
-  {| c_proto := p; c_ordered := true; c_reserve := true; c_delretry := true; c_n4 := n4; c_n6 := n6; c_npd := npd |}.
+  {| c_proto := p; c_ordered := true; c_reserve := true; c_delretry := true; c_delforever := true; c_n4 := n4; c_n6 := n6; c_npd := npd |}.
 (* the behaviour before the three fixes (657fd59, 7da5674, f3eb7c5); only used by the _refuted witnesses *)
 Definition before_fixes (p : proto) (n4 n6 npd : N) : cfg :=
-  {| c_proto := p; c_ordered := false; c_reserve := false; c_delretry := false; c_n4 := n4; c_n6 := n6; c_npd := npd |}.
+  {| c_proto := p; c_ordered := false; c_reserve := false; c_delretry := false; c_delforever := false; c_n4 := n4; c_n6 := n6; c_npd := npd |}.
